@@ -126,6 +126,11 @@ extern "C" void harness_capi(void) {
     bool r = rule->isResultValid(*eng, val);
     VF_ASSERT(c_calls == 1 && c_which == 3 && r == c_validAnswer && c_ctx == &c_ruleCtx && c_ectx == &c_engCtx && c_len == n, "is_result_valid sees the stored value and its answer is returned");
     for (unsigned i = 0; i < n; i++) VF_ASSERT(c_ptr[i] == bytes[i], "value bytes arrive unchanged");
+    // a later build asks again about the same rule object and the same value: the client is asked again and ITS answer (which may have
+    // changed: is_result_valid exists to look at state outside the engine) is returned - the adaptor keeps no opinion of its own
+    c_calls = 0; c_which = -1; c_validAnswer = nondet_bool();
+    bool r2 = rule->isResultValid(*eng, val);
+    VF_ASSERT(c_calls == 1 && c_which == 3 && r2 == c_validAnswer && c_len == n, "is_result_valid is forwarded on every call, also for a value the client accepted before");
   } else if (sel == 1) {
     uint8_t k = nondet_u8(); VF_ASSUME(k < 3);
     rule->updateStatus(*eng, (Rule::StatusKind)k);
